@@ -537,6 +537,18 @@ def signature(case, name):
     return {"fn": fn, "check": name}
 
 
+def sweep_old(prop, max_age=3600):
+    """Remove this check's per-process case files of earlier runs (older than an hour)."""
+    import glob
+    import time
+    for f in glob.glob(os.path.join(C.run_dir(prop), "*corr_p*")):
+        try:
+            if time.time() - os.path.getmtime(f) > max_age:
+                os.remove(f)
+        except OSError:
+            pass
+
+
 class C09(C.Check):
     prop = "C09"
     coq_dir = "C09"
@@ -564,6 +576,7 @@ class C09(C.Check):
     # -----------------------------------------------------------------------------------------------
     def correspondence(self, ctx, res):
         quiet()
+        sweep_old(self.prop)
         rng = ctx.rng(91)
         checks = []
         meta = []
@@ -621,7 +634,7 @@ class C09(C.Check):
                         checks.append("check_kernel_hartley %s %s %s %s" % (
                             C.cbool(conv == CONVS[0]), cnats(shape), cqpairs(xr), cqpairs(y)))
                         meta.append({"kind": "kernel", "fn": nm, "shape": shape, "conv": conv})
-        bad = C.eval_cases(self.prop, "corr", HEADER, checks, shard=200, jobs=4)
+        bad = C.eval_cases(self.prop, "corr_p%d" % os.getpid(), HEADER, checks, shard=200, jobs=4)
         hints = []
         for i in bad[:4]:
             res.add_broken("correspondence", "harmonic operators vs coq/C09/Model.v (exact)", meta[i])
